@@ -46,7 +46,8 @@ RULE = ("Hypothesis-generated cases, four clauses. planet_dir / planet_elong: (p
         "afterwards. "
         "Non-trivial (as the property's quantifier suggests: where light time, regime or era "
         "matter): geocentric distance > 2 AU, or e >= 0.98, or year outside 1900-2100, or a "
-        "body closer than 0.1 AU; distinct = distinct canonical case.")
+        "body closer than 0.1 AU; distinct = distinct canonical case."
+        " The Sun's vector of the oracle is asked for after a call for another date and cross-checked with minus the library's heliocentric J2000 vector of the Earth (6e-5 deg); one minor-body case in five uses a Minor object that described another orbit with the same perihelion passage, was asked for positions at the same epoch and was then given the orbit with set().")
 ASSUMPTIONS = [
     "direction tolerance 0.02 deg (planets: covers annual aberration 20.5 arcsec, nutation "
     "17 arcsec and the FK5 offset, which the oracle does not apply), 1e-4 deg for Pluto and "
